@@ -100,6 +100,12 @@ def families(prop: str, tier: str, seed: int) -> List[Dict[str, Any]]:
         s = list(g.gen_deps_enum()) + g.gen_deps(seed, 500 * k) + g.gen_deps(seed + 1, 200 * k, uncached_p=0.0)
     else:
         raise KeyError(prop)
+    # witnesses of open known findings and regression scenarios of fixed ones are always executed
+    for kf in common.known_findings():
+        if kf["property"] == prop:
+            w = kf.get("witness") or kf.get("regression_scenario")
+            if w and "steps" in w:
+                s.append({"cfg": w["cfg"], "steps": w["steps"], "family": "ledger:" + kf["id"]})
     return s
 
 
